@@ -39,12 +39,7 @@
 (***************************************************************************)
 EXTENDS Codec, Json
 
-CONSTANTS Area,      \* "C02" | "C05"
-          Tier,      \* "quick" | "thorough"
-          EmitOn,    \* print rows
-          Repaired   \* TRUE: counts are bounded before allocation / slicing (the repaired design)
-VARIABLES sel, done
-vars == <<sel, done>>
+CONSTANT Repaired    \* TRUE: counts are bounded before allocation / slicing (the repaired design); FALSE: the code as it is
 
 PANIC == "panic"
 MaxTxSize   == 1048576
@@ -215,7 +210,18 @@ DecHeader(s, L, pos) ==
     IF r.e # OK THEN r ELSE D(r.v, r.p, OK, <<HdrUnsigned(r.v)>>)
 
 (* the root the header must carry: a token naming the transactions (by their identity) it was computed over *)
-CONSTANT UniTx                                                  \* letter -> transaction value (the universe of block members)
+(* ---- sample values: transactions, signatures (shared with WireTable.tla) ----------------------- *)
+SigV(keys, nsd, fill, m) == << [i \in 1..nsd |-> <<Lit(64, fill)>>], [i \in 1..Len(keys) |-> <<keys[i]>>], U16(m) >>
+TxV(nonce, chain, gas, code, sigs) ==
+    << <<0>>, <<209>>, nonce, chain, gas, gas, code, <<>>, Norm(Lit(10, 17) \o Lit(10, 34)), <<0>>, sigs >>
+TxA(sigs) == TxV(U32(1), U64(2), U64(20000), FromBytes(<<1, 2, 3>>), sigs)
+TxB(sigs) == TxV(U32(2), U64(2), U64(0), <<>>, sigs)
+TxC(sigs) == TxV(U32(3), U64(2), U64(70000), Lit(253, 9), sigs)
+S1  == SigV(<<"p1">>, 1, 161, 1)
+S2  == SigV(<<"p1", "s1", "e1">>, 2, 162, 2)
+S2r == SigV(<<"s1", "p1", "e1">>, 2, 163, 2)
+S3  == SigV(<<"p2">>, 1, 164, 1)
+UniTx == [a |-> TxA(<<>>), b |-> TxB(<<S3>>), c |-> TxC(<<S2>>)]       \* the universe of block members: letter -> transaction
 UniLetters == DOMAIN UniTx
 LetterOf(hr) == IF \E a \in UniLetters : TxUnsigned(UniTx[a]) = hr
                 THEN CHOOSE a \in UniLetters : TxUnsigned(UniTx[a]) = hr ELSE "?"
@@ -253,11 +259,6 @@ Dec(entry, s) ==
     ELSE DecS(entry, s, L, 0)
 
 (* ---- p2p frames ------------------------------------------------------------------------ *)
-Cmds == [ping |-> "ping", pong |-> "pong", version |-> "version", verack |-> "verack", getaddr |-> "getaddr", addr |-> "addr",
-         getheaders |-> "getheaders", headers |-> "headers", inv |-> "inv", getdata |-> "getdata", blockmsg |-> "block",
-         txmsg |-> "tx", consensus |-> "consensus", getblocks |-> "getblocks", notfound |-> "notfound", disconnect |-> "disconnect"]
-Ascii == [a |-> 97, b |-> 98, c |-> 99, d |-> 100, e |-> 101, f |-> 102, g |-> 103, h |-> 104, i |-> 105, k |-> 107, l |-> 108,
-          n |-> 110, o |-> 111, p |-> 112, r |-> 114, s |-> 115, t |-> 116, u |-> 117, v |-> 118, x |-> 120]
 CmdBytes == [
   ping |-> <<112, 105, 110, 103>>, pong |-> <<112, 111, 110, 103>>, version |-> <<118, 101, 114, 115, 105, 111, 110>>,
   verack |-> <<118, 101, 114, 97, 99, 107>>, getaddr |-> <<103, 101, 116, 97, 100, 100, 114>>, addr |-> <<97, 100, 100, 114>>,
